@@ -55,6 +55,7 @@ func (s *specIcpt) WrapStreamingHandler(next connect.StreamingHandlerFunc) conne
 }
 
 func dispOp(c *Ctx, op string) {
+	c.Begin(op)
 	a := kvArgs(strings.Fields(op))
 	method, ct, procedure := string(unhx(a["method"])), string(unhx(a["ct"])), string(unhx(a["procedure"]))
 	ans := safely(func() string {
@@ -203,6 +204,7 @@ func advertises(kind, codecs, ct string) bool {
 }
 
 func pathOp(c *Ctx, op string) {
+	c.Begin(op)
 	f := strings.Fields(op)
 	url := string(unhx(f[1]))
 	ans := safely(func() string {
